@@ -11,6 +11,19 @@ DONE = {
   'implementation, extracted model and extracted spec are compared on every cell of the threshold arrangement and on random points.',
   'regenerated Gallina model + Coq theorems (lra cell decomposition) + differential check vs extracted model/spec',
   'CPython float semantics modelled as exact rationals of doubles (margin rule at rounding ties). Print Assumptions: closed under the global context.'),
+ 'C13': ('§5.C13',
+  'superpose() is modelled with the rotation kernel as an oracle argument (its optimality is C06): selection pairing (by position when sizes are '
+  'equal, else through the identity-keyed many2sql intersection), centring on the selections, one rigid motion applied to ALL atoms, write-back of '
+  'x,y,z only. Coq proves, for any matrix, atom list and selections: every atom undergoes the same affine map; with an orthogonal matrix all '
+  'distances are preserved; the deviation left on the paired atoms equals the kernel residual on the centred selections (so optimality reduces to '
+  'C06); only coordinates change (count, order, all other cells); pairing is by identity when sizes differ and is refuted when they are equal (F7). '
+  'The harness runs superpose on real databases with the kernel wrapped, feeds the recorded matrix to the extracted model (exact rationals) and '
+  'checks rigidity, optimality on the identity-matched selection against an independent Kabsch minimum, landing of rigid copies, untouched target, '
+  'and the directory snapshot for export on/off.',
+  'hand-written Gallina model with oracle rotation + Coq theorems (ring identities, induction over atom lists) + correspondence on real databases',
+  'Rotation kernel and LAPACK are oracles (recorded per run; C06 is the property about them); the minimum RMSD used in the verdict is computed by '
+  'the harness in binary64 (tolerance 1e-6, or PDB text precision when the pairs come from the exported text). Known finding F7. '
+  'Print Assumptions: closed under the global context.'),
  'C15': ('§5.C15',
   'Every derivation in the library (sub-selection call, interface(db), many2sql([db,...]), many2sql call) rebuilds the new object from the '
   'exported text of the selected rows; the model is snapshot = parse(export(rows)) over the regenerated C01/C02 leaf functions. Coq proves that '
